@@ -170,6 +170,8 @@ type runState struct {
 	invs         map[string][]*invocation // key -> invocations
 	mons         []engine.Monitor
 	skipMismatch []string
+	obsPanics    []string // panics out of RootMonitor.AllErrors() called by the error observer
+	obsCalls     int64
 	latePending  int32 // events a helper goroutine still has to add under a child monitor that exists already
 }
 
@@ -184,6 +186,19 @@ func (rs *runState) begin(key string) *invocation {
 func buildProcessor(s *script, rs *runState) engine.Processor {
 	proc := engine.NewProcessor(s.workers)
 	proc.SetFailOnFirstErrorInTriggerSequence(s.failFirst)
+	// the error observer of an embedding host: it is told that a cascade has
+	// new errors and reads the report (as the repository's own tests do). It
+	// runs on the worker that reported the failure, next to the other workers.
+	proc.SetRootMonitorErrorObserver(func(rm *engine.RootMonitor) {
+		atomic.AddInt64(&rs.obsCalls, 1)
+		if key, msg, panicked := core.Guard(func() { rm.AllErrors() }); panicked {
+			rs.mu.Lock()
+			if len(rs.obsPanics) < 4 {
+				rs.obsPanics = append(rs.obsPanics, key+": "+firstLineOf(msg))
+			}
+			rs.mu.Unlock()
+		}
+	})
 	dead := len(s.kinds)
 	for i, rules := range s.kinds {
 		for _, r := range rules {
@@ -536,7 +551,14 @@ func runScenario(c *core.Ctx, stream string, idx int, s *script, noise uint64, n
 	}
 	nm := len(rs.mons)
 	sm := rs.skipMismatch
+	op := rs.obsPanics
 	rs.mu.Unlock()
+	c.Event("error-observer.calls(AllErrors read next to running workers)", atomic.LoadInt64(&rs.obsCalls))
+	if len(op) > 0 {
+		d := detail()
+		d["panics"] = op
+		c.Violation("error-observer:allerrors-panics", "RootMonitor.AllErrors() called by the root monitor error observer panicked: "+op[0], stream, idx, d)
+	}
 	if unfinished > 0 {
 		c.Violation("monitor-unfinished", fmt.Sprintf("%d of %d monitors handed to the processor are not finished at quiescence", unfinished, nm), stream, idx, detail())
 	}
@@ -651,7 +673,7 @@ func capped(c *core.Ctx, stream string, idx int) bool {
 
 // Run is the check.
 func Run(c *core.Ctx) {
-	c.Note("rule", "cascade scripts are data (per event kind a list of rules with priority, fail flag, yields and child events with priorities, incl. non-triggering children); an independent expansion gives the expected (event, rule) invocations and failures (respecting fail-on-first-error); the real engine runs them with harness closures as actions, 1..16 workers, 1..8 cascades in flight from separate goroutines; streams: 'gate' = 4 fixed shapes x 14 hold points (12 on workers, 2 on the adding goroutine between AddTask and its wait) x 13 partner points (one goroutine held at the hold point until another passed the partner point; infeasible pairs are released), 'nested' = rule actions that wait for a nested cascade of their own (fan < workers) with a stuck predicate that accepts workers blocked in a nested wait, 'late' = random scripts in which half of the child events are added by a helper goroutine after the action that created their monitor has returned (asynchronous producer; the wait still has to cover them), 'latehandler' = AddEvent(event, nil) without wait, the finish handler installed on the returned monitor while the root action is still running (1..4 workers, 0..3 children, failing root, a second awaited cascade), judged at quiescence, 'ecal' = the same scripts as ECAL sinks awaited with the built-in addEventAndWait, 'noise' = seeded random scripts with random yields/sleeps at the lock-free hook points, also under -race; oracles: stamps of action ends vs. return of AddEventAndWait, exactly-once invocation table, AllErrors() at return time and again at quiescence vs. expected failures, finish-handler count, IsFinished of every monitor handed out, stuck-state predicate for a wait that cannot return; non-trivial/distinct = distinct interleaving signatures of the hook trace and feasible gate cases")
+	c.Note("rule", "cascade scripts are data (per event kind a list of rules with priority, fail flag, yields and child events with priorities, incl. non-triggering children); an independent expansion gives the expected (event, rule) invocations and failures (respecting fail-on-first-error); the real engine runs them with harness closures as actions, 1..16 workers, 1..8 cascades in flight from separate goroutines; streams: 'gate' = 4 fixed shapes x 14 hold points (12 on workers, 2 on the adding goroutine between AddTask and its wait) x 13 partner points (one goroutine held at the hold point until another passed the partner point; infeasible pairs are released), 'nested' = rule actions that wait for a nested cascade of their own (fan < workers) with a stuck predicate that accepts workers blocked in a nested wait, 'late' = random scripts in which half of the child events are added by a helper goroutine after the action that created their monitor has returned (asynchronous producer; the wait still has to cover them), 'latehandler' = AddEvent(event, nil) without wait, the finish handler installed on the returned monitor while the root action is still running (1..4 workers, 0..3 children, failing root, a second awaited cascade), judged at quiescence, 'ecal' = the same scripts as ECAL sinks awaited with the built-in addEventAndWait, 'noise' = seeded random scripts with random yields/sleeps at the lock-free hook points, also under -race; every processor carries a root monitor error observer that reads AllErrors() on the reporting worker; oracles: no panic out of that read, stamps of action ends vs. return of AddEventAndWait, exactly-once invocation table, AllErrors() at return time and again at quiescence vs. expected failures, finish-handler count, IsFinished of every monitor handed out, stuck-state predicate for a wait that cannot return; non-trivial/distinct = distinct interleaving signatures of the hook trace and feasible gate cases")
 	shapes := gateShapes()
 	i := 0
 	for si, sh := range shapes {
@@ -751,4 +773,13 @@ func Run(c *core.Ctx) {
 		s := genScript(r)
 		runEcal(c, "ecal", k, s, uint64(r.OneOf(0, 100, 300, 700)), r.U64())
 	}
+}
+
+func firstLineOf(s string) string {
+	for i := 0; i < len(s); i++ {
+		if s[i] == '\n' {
+			return s[:i]
+		}
+	}
+	return s
 }
